@@ -324,7 +324,17 @@ fn timeout_grid(rep: &mut Report) {
     use tower_resilience_healthcheck::HealthCheckConfig;
     let mut reported = std::collections::BTreeSet::new();
     // (interval ms, timeout ms, how long every check takes ms, the status every check must end in)
-    let cases: [(u64, u64, u64, HealthStatus); 4] = [(40, 100, 60, HealthStatus::Healthy), (40, 100, 130, HealthStatus::Unhealthy), (100, 30, 20, HealthStatus::Healthy), (100, 30, 50, HealthStatus::Unhealthy)];
+    // (the fifth: a timeout above the interval and every round overrunning the interval by
+    // more than timeout - takes, so that a deadline measured from the scheduled tick instead of
+    // from the start of the check would cut the next check short)
+    let cases: [(u64, u64, u64, HealthStatus); 6] = [
+        (40, 100, 60, HealthStatus::Healthy),
+        (40, 100, 130, HealthStatus::Unhealthy),
+        (100, 30, 20, HealthStatus::Healthy),
+        (100, 30, 50, HealthStatus::Unhealthy),
+        (100, 250, 200, HealthStatus::Healthy),
+        (100, 250, 240, HealthStatus::Healthy),
+    ];
     for via_config in [false, true] {
         for (interval, timeout, takes, want) in cases.iter().copied() {
             let w = World::new(0, 10, Mode::Script, 1);
@@ -339,9 +349,23 @@ fn timeout_grid(rep: &mut Report) {
                 b.with_interval(Duration::from_millis(interval)).with_initial_delay(Duration::ZERO).with_timeout(Duration::from_millis(timeout)).with_failure_threshold(1).with_success_threshold(1).build()
             };
             w.block_on(wrapper.start());
-            // long enough for several checks to have been decided either way
-            w.block_on(async { tokio::time::sleep(Duration::from_millis(6 * (interval + timeout + takes))).await });
-            let st = w.block_on(wrapper.get_status("r0"));
+            // long enough for several checks to have been decided either way; the published status
+            // is sampled every 10 ms: it must never be anything but unknown (before the first
+            // decision) or the expected one
+            let mut st = None;
+            let mut wrong: Option<(u64, HealthStatus)> = None;
+            for step in 0..(6 * (interval + timeout + takes) / 10) {
+                w.block_on(async { tokio::time::sleep(Duration::from_millis(10)).await });
+                st = w.block_on(wrapper.get_status("r0"));
+                if let Some(s) = st {
+                    if s != want && s != HealthStatus::Unknown && wrong.is_none() {
+                        wrong = Some(((step + 1) * 10, s));
+                    }
+                }
+            }
+            if let Some((_, s)) = wrong {
+                st = Some(s);
+            }
             w.block_on(wrapper.stop());
             rep.evaluations += 1;
             rep.distinct.insert(format!("timeouts|{via_config}|{interval}|{timeout}|{takes}|{st:?}"));
